@@ -41,14 +41,16 @@ class Heap:
         self.i_other = [i for i, (n, t) in enumerate(self.fields) if is_adt(t, "Option") and t["args"][0].get("k") == "ref"][0]
 
     def settable(self, ty, req):
-        fs = self.sim.adt_fields(ty)
-        out = []
-        for n, t in fs:
-            if n == "following":
-                out.append(self.sim.mk_enum(t, "Some", [Sym("followed_%d" % len(self.st.mem), t["args"][0])]) if self.following else self.sim.mk_enum(t, "None"))
-            else:
-                out.append(self.sim.mk_enum(t, "None") if req is None else self.sim.mk_enum(t, "Some", [req]))
-        return Struct(ty, out)
+        """SettableData in the state (following a fresh symbolic getter | nothing, last request req | none) - built through the
+        crate's own constructor / set / follow (sdkit), whatever its fields are"""
+        import sdkit
+        k = sdkit.kit(self.sim, self.sim.prog)
+        fol = None
+        if self.following:
+            ffn = sdkit.trait_default(self.sim.prog, "Settable", "follow")
+            gty = subst(ffn["sig_inputs"][1], self.sim.identity_gargs(ffn))
+            fol = Sym("followed_%d" % len(self.st.mem), gty)
+        return k.make(ty, following=fol, request=req)
 
     def datum(self, opt_ty_holder, tag, prefix):
         """Datum value of the payload type stored in SettableData<Datum<X>,E> field idx."""
@@ -97,7 +99,8 @@ class Heap:
     def slot(self, st, tag, which):
         cell = self.sim.final_value(st, st.mem[self.cells[tag]])
         sd = cell.data[0].fields[self.i_state if which == "state" else self.i_cmd]
-        return sd.fields[1]
+        import sdkit
+        return sdkit.kit(self.sim, self.sim.prog).request_option(None, sd)
 
 
 def comm_norm(v):
@@ -267,7 +270,8 @@ class DeviceHeap:
         path, tag = self.terms[i]
         cell = self.sim.final_value(st, self.sim.read(st, Ptr(self.oid, path)))
         sd = cell.data[0].fields[self.h.i_state if which == "state" else self.h.i_cmd]
-        return sd.fields[1]
+        import sdkit
+        return sdkit.kit(self.sim, self.sim.prog).request_option(None, sd)
 
     def cell_ptr(self, i):
         return Ptr(self.oid, self.terms[i][0])
